@@ -55,7 +55,7 @@ func gen(r *hv.Rng, i int, tier string) (string, hv.Val) {
 	next := 1
 	n := r.Range(4, 36)
 	var steps hv.L
-	class := "mixed"
+	tags := map[string]bool{}
 	pick := func(f func(*sh) bool) *sh {
 		var c []*sh
 		for _, s := range sts {
@@ -121,7 +121,7 @@ func gen(r *hv.Rng, i int, tier string) (string, hv.Val) {
 				if L <= conn {
 					// refunded at once
 				}
-				class = "closed-data"
+				tags["closed-data"] = true
 				continue
 			}
 			lim := s.win
@@ -174,10 +174,10 @@ func gen(r *hv.Rng, i int, tier string) (string, hv.Val) {
 			L := dlen + extra
 			if s.decl >= 0 && s.sent+dlen > s.decl {
 				s.alive, s.open = false, false
-				class = "cl-overrun"
+				tags["cl-overrun"] = true
 			} else if L > lim {
 				s.alive, s.open = false, false
-				class = "excess"
+				tags["excess"] = true
 			} else {
 				s.win -= dlen
 				conn -= dlen
@@ -223,11 +223,17 @@ func gen(r *hv.Rng, i int, tier string) (string, hv.Val) {
 				continue
 			}
 			steps = append(steps, step(7, s.id, 0, 0, 0))
-			class = "body-closed"
+			tags["body-closed"] = true
 		case k < 90: // handler returns
 			s := pick(func(s *sh) bool { return s.running })
 			if s == nil {
 				continue
+			}
+			if s.buf > 0 && r.Chance(3, 4) {
+				// drain first: closing with unread octets is known finding 1
+				steps = append(steps, step(6, s.id, 131072, 0, 0))
+				conn += s.buf
+				s.buf = 0
 			}
 			steps = append(steps, step(8, s.id, 0, 0, 0))
 			s.running, s.alive, s.open = false, false, false
@@ -235,6 +241,11 @@ func gen(r *hv.Rng, i int, tier string) (string, hv.Val) {
 			s := pick(func(s *sh) bool { return s.alive })
 			if s == nil {
 				continue
+			}
+			if s.buf > 0 && s.running && r.Chance(3, 4) {
+				steps = append(steps, step(6, s.id, 131072, 0, 0))
+				conn += s.buf
+				s.buf = 0
 			}
 			steps = append(steps, step(3, s.id, 8, 0, 0))
 			s.alive, s.open = false, false
@@ -254,6 +265,16 @@ func gen(r *hv.Rng, i int, tier string) (string, hv.Val) {
 			steps = append(steps, step(1, s.id, r.Intn(2), r.Intn(2), -1))
 			s.open = false
 		}
+	}
+	class := "plain"
+	for _, t := range []string{"excess", "cl-overrun", "body-closed", "closed-data"} {
+		if tags[t] {
+			class = t
+			break
+		}
+	}
+	if eff != 65535 {
+		class += "-isw"
 	}
 	return class, hv.L{hv.L{hv.I(isw), hv.I(maxs)}, steps}
 }
